@@ -113,6 +113,25 @@ impl Ctl {
         self.wait_settled(tid, timeout)
     }
 
+    /// let `tid` go and return as soon as it has taken the grant (it keeps running)
+    pub fn release_nowait(&self, tid: ThreadId, timeout: Duration) -> bool {
+        let deadline = Instant::now() + timeout;
+        let mut g = self.lock();
+        g.granted = Some(tid);
+        self.cv.notify_all();
+        loop {
+            if g.granted.is_none() {
+                return true;
+            }
+            let now = Instant::now();
+            if now >= deadline {
+                return false;
+            }
+            let (ng, _) = self.cv.wait_timeout(g, deadline - now).unwrap_or_else(|e| e.into_inner());
+            g = ng;
+        }
+    }
+
     pub fn state(&self, tid: ThreadId) -> Option<TState> {
         self.lock().threads.get(&tid).copied()
     }
@@ -147,6 +166,7 @@ impl Hooks for Ctl {
                 }
                 g.granted = None;
                 g.threads.insert(tid, TState::Running);
+                self.cv.notify_all();
             }
         }
     }
@@ -188,6 +208,9 @@ pub enum Choice {
     Send,
     /// run server thread t (0 = loop) until it parks again or exits
     Run { t: u64 },
+    /// racy runs only: let worker t and the message loop execute *at the same time* (real parallelism between
+    /// two hook points), then wait for both. Reaches interleavings inside a handler; not exactly replayable.
+    Overlap { t: u64 },
 }
 
 #[derive(Clone, Copy, Debug, Serialize, Deserialize, PartialEq)]
@@ -210,6 +233,8 @@ pub const POLICIES: &[(&str, Policy)] = &[
 
 pub enum Mode<'a> {
     Random { rng: &'a mut crate::rng::Rng, policy: Policy },
+    /// like Random, but now and then a worker is overlapped with the loop
+    Racy { rng: &'a mut crate::rng::Rng, policy: Policy },
     /// send one message, run everything to completion, repeat
     Sequential,
     Replay { choices: &'a [Choice], at: usize },
@@ -263,6 +288,16 @@ impl<'a> Mode<'a> {
                 }
                 Ok(Some(Choice::Send))
             }
+            Mode::Racy { rng, policy } => {
+                if view.loop_enabled {
+                    let starting: Vec<ThreadId> = view.workers.iter().filter(|(_, p)| *p == Point::WorkerStart).map(|(t, _)| *t).collect();
+                    if !starting.is_empty() && rng.chance(1, 2) {
+                        let t = *rng.pick(&starting);
+                        return Ok(Some(Choice::Overlap { t }));
+                    }
+                }
+                Mode::Random { rng: &mut **rng, policy: *policy }.choose(view)
+            }
             Mode::Random { rng, policy } => {
                 let mut weights = vec![];
                 for c in &enabled {
@@ -274,6 +309,7 @@ impl<'a> Mode<'a> {
                             Some(Point::BeforeSend) => policy.w_before_send,
                             _ => policy.w_after_send,
                         },
+                        Choice::Overlap { .. } => 0,
                     });
                 }
                 let i = rng.weighted(&weights);
@@ -286,7 +322,8 @@ impl<'a> Mode<'a> {
                 }
                 let c = choices[*at].clone();
                 *at += 1;
-                if !enabled.contains(&c) {
+                let overlap_ok = matches!(&c, Choice::Overlap { t } if view.loop_enabled && view.workers.iter().any(|(w, _)| w == t));
+                if !enabled.contains(&c) && !overlap_ok {
                     return Err(SchedError::ReplayDivergence(format!("choice #{} {:?} is not enabled (enabled: {:?})", *at - 1, c, enabled)));
                 }
                 Ok(Some(c))
@@ -347,6 +384,19 @@ impl System {
         };
         let workers = g.threads.iter().filter(|(t, _)| **t != 0).filter_map(|(t, s)| if let TState::Parked(p) = s { Some((*t, *p)) } else { None }).collect();
         View { can_send, loop_enabled, workers }
+    }
+
+    /// worker `t` and the loop run in parallel until both have parked again (or exited)
+    pub fn run_overlapped(&mut self, t: ThreadId) -> bool {
+        let a = self.ctl.release_nowait(t, self.watchdog);
+        let b = self.ctl.release(0, self.watchdog);
+        let c = self.ctl.wait_settled(t, self.watchdog);
+        for (ok, who) in [(a && c, t), (b, 0)] {
+            if !ok && !self.blocked.contains(&who) {
+                self.blocked.push(who);
+            }
+        }
+        a && b && c
     }
 
     pub fn run_thread(&mut self, t: ThreadId) -> bool {
